@@ -119,6 +119,12 @@ class stabilizerEngine(quantumEngine):
         """
         self.qubitReg.apply_K(qubitNum)
 
+    def apply_S(self, qubitNum):
+        """
+        Applies a S (phase) gate to the qubits with number qubitNum.
+        """
+        self.qubitReg.apply_S(qubitNum)
+
     def apply_X(self, qubitNum):
         """
         Applies a X gate to the qubits with number qubitNum.
